@@ -10,7 +10,7 @@ for d in sorted(glob.glob("/verif/seeded/*/")):
     m["title"] = title
     m["needs_to_manifest"] = body
     json.dump(m, open(d + "meta.json", "w"), indent=1)
-    first = m.get("earlier_runs", [{}])[0].get("detected_by") if m.get("earlier_runs") else m["detected_by"]
+    first = m["earlier_runs"][0].get("detected_by") if m.get("earlier_runs") else m["detected_by"]
     r = m["checks_run_against_it"].get(m["breaks_property"], {})
     why = (r.get("reason") or [""])[0]
     rows.append((m["id"], title, ",".join(first) if first else "missed", ",".join(m["detected_by"]) or "missed", why[:110]))
